@@ -357,6 +357,44 @@ func c37RtpDump(r *Rand) []byte {
 	return out
 }
 
+// c37OggStructured builds an Ogg file whose pages carry VALID checksums but
+// whose header payloads are mutated (truncated / bit-flipped / random OpusHead
+// and OpusTags, odd header types): byte-level mutation never gets past the CRC.
+func c37OggStructured(r *Rand) []byte {
+	serial := uint32(r.U64())
+	mut := func(b []byte) []byte {
+		switch r.Intn(5) {
+		case 0:
+			return b[:r.Intn(len(b)+1)]
+		case 1:
+			c := append([]byte(nil), b...)
+			if len(c) > 0 {
+				c[r.Intn(len(c))] ^= byte(1 << r.Intn(8))
+			}
+			return c
+		case 2:
+			keep := 8
+			if keep > len(b) {
+				keep = len(b)
+			}
+			return append(append([]byte(nil), b[:keep]...), r.Bytes(r.Range(0, 24))...)
+		case 3:
+			return append(append([]byte(nil), b...), r.Bytes(r.Range(1, 12))...)
+		}
+		return b
+	}
+	ht := byte(2)
+	if r.Chance(1, 6) {
+		ht = byte(r.Intn(8))
+	}
+	out := c37OggPage(ht, 0, serial, 0, mut(c37OpusHead(r)))
+	out = append(out, c37OggPage(0, 0, serial, 1, mut(c37OpusTags(r)))...)
+	for i, n := 0, r.Range(0, 3); i < n; i++ {
+		out = append(out, c37OggPage(byte(r.Intn(8)), uint64((i+1)*960), serial, uint32(i+2), r.Bytes(r.Range(0, 600)))...)
+	}
+	return out
+}
+
 func c37Valid(r *Rand, reader string) []byte {
 	switch reader {
 	case "ivf":
@@ -458,6 +496,14 @@ func init() {
 		Gen: func(r *Rand, i int) c37In {
 			reader := c37Readers[i%len(c37Readers)]
 			d, mut := c37Mutate(r, c37Valid(r, reader))
+			if (reader == "ogg" || reader == "oggnocrc") && r.Chance(1, 2) {
+				d, mut = c37OggStructured(r), "valid-crc-mutated-payload"
+			}
+			if (reader == "opushead" || reader == "opustags") && r.Chance(1, 4) {
+				// every prefix length matters for the fixed-offset field reads
+				v := c37Valid(r, reader)
+				d, mut = append(v[:r.Intn(len(v)+1)], r.Bytes(r.Intn(3))...), "prefix+random"
+			}
 			chunk := 0
 			if r.Bool() {
 				chunk = r.Range(1, 9)
